@@ -11,10 +11,10 @@ Definition peeked (r : reader) : Prop := rk r = SrcIo -> rpending r = true.
 Lemma skip_intr_bytes l : skip_intr (bytes_events l) = bytes_events l.
 Proof. destruct l; reflexivity. Qed.
 
-Lemma peek_nil r : at_bytes r [] -> exists r', r_peek r = (Ok None, r') /\ at_bytes r' [].
+Lemma peek_nil r : at_bytes r [] -> exists r', r_peek r = (Ok None, r') /\ at_bytes r' [] /\ rk r' = rk r.
 Proof.
   unfold at_bytes, r_peek. intros H. rewrite H. cbn [bytes_events map skip_intr].
-  destruct (rpending r); eexists; split; try reflexivity; unfold at_bytes; cbn; auto.
+  destruct (rpending r); eexists; (split; [reflexivity|]); unfold at_bytes; cbn; auto.
 Qed.
 
 Lemma peek_cons r b l : at_bytes r (b :: l) ->
@@ -26,10 +26,10 @@ Proof.
   - eexists. split; [reflexivity|]. cbn. repeat split; auto.
 Qed.
 
-Lemma next_nil r : at_bytes r [] -> exists r', r_next r = (Ok None, r') /\ at_bytes r' [].
+Lemma next_nil r : at_bytes r [] -> exists r', r_next r = (Ok None, r') /\ at_bytes r' [] /\ rk r' = rk r.
 Proof.
   unfold at_bytes, r_next. intros H. rewrite H. cbn [bytes_events map skip_intr].
-  destruct (rpending r); eexists; split; try reflexivity; unfold at_bytes; cbn; auto.
+  destruct (rpending r); eexists; (split; [reflexivity|]); unfold at_bytes; cbn; auto.
 Qed.
 
 Lemma next_cons r b l : at_bytes r (b :: l) ->
@@ -57,7 +57,7 @@ Proof.
   intros H. destruct (peek_cons r b l H) as (r' & E & Ha & Hp & Hk).
   exists r'. unfold peek, peeked. repeat split; auto.
 Qed.
-Lemma m_peek_nil r : at_bytes r [] -> exists r', peek r = (Ok None, r') /\ at_bytes r' [].
+Lemma m_peek_nil r : at_bytes r [] -> exists r', peek r = (Ok None, r') /\ at_bytes r' [] /\ rk r' = rk r.
 Proof. apply peek_nil. Qed.
 
 Lemma m_eat r b l : at_bytes r (b :: l) -> peeked r ->
@@ -74,16 +74,16 @@ Proof.
   exists r'. unfold peek_or_null, bind, ret. rewrite E. auto.
 Qed.
 Lemma m_peek_or_null_nil r : at_bytes r [] ->
-  exists r', peek_or_null r = (Ok 0, r') /\ at_bytes r' [].
+  exists r', peek_or_null r = (Ok 0, r') /\ at_bytes r' [] /\ rk r' = rk r.
 Proof.
-  intros H. destruct (m_peek_nil r H) as (r' & E & Ha).
+  intros H. destruct (m_peek_nil r H) as (r' & E & Ha & Hk).
   exists r'. unfold peek_or_null, bind, ret. rewrite E. auto.
 Qed.
 
 Lemma m_next_cons r b l : at_bytes r (b :: l) ->
   exists r', next_char r = (Ok (Some b), r') /\ at_bytes r' l /\ rk r' = rk r.
 Proof. apply next_cons. Qed.
-Lemma m_next_nil r : at_bytes r [] -> exists r', next_char r = (Ok None, r') /\ at_bytes r' [].
+Lemma m_next_nil r : at_bytes r [] -> exists r', next_char r = (Ok None, r') /\ at_bytes r' [] /\ rk r' = rk r.
 Proof. apply next_nil. Qed.
 
 Lemma bind_ok {A B} (m : M A) (f : A -> M B) r a r' : m r = (Ok a, r') -> bind m f r = f a r'.
